@@ -44,6 +44,8 @@ type fsHandle struct {
 	pos    int
 	closed bool
 	write  bool
+	app    bool // O_APPEND
+	inPlace bool // opened with OpenFile: writes go to pos and may overwrite
 }
 
 type crashSentinel struct{}
@@ -210,6 +212,33 @@ func registerFS() {
 		s.names[name] = ino
 		return tuple{in.fileValue(&fsHandle{name: name, inode: ino, write: true}), iface{}}
 	}
+	I["os.OpenFile"] = func(in *Interp, fr *frame, fn *ssa.Function, a []value) value {
+		name := in.mustStr(a[0], "os.OpenFile")
+		fl, ok := cint(a[1])
+		if !ok {
+			panic(engineErr("os.OpenFile with symbolic flags"))
+		}
+		const (
+			oWRONLY, oRDWR, oCREATE, oEXCL, oTRUNC, oAPPEND = 0x1, 0x2, 0x40, 0x80, 0x200, 0x400
+		)
+		in.fsOp("open " + name)
+		s := in.fs()
+		ino, exists := s.names[name]
+		switch {
+		case !exists && fl&oCREATE == 0:
+			return tuple{(*value)(nil), in.newErr("open "+name+": no such file", in.osErr("ErrNotExist"))}
+		case exists && fl&oCREATE != 0 && fl&oEXCL != 0:
+			return tuple{(*value)(nil), in.newErr("open "+name+": file exists", in.osErr("ErrExist"))}
+		case !exists:
+			ino = &fsInode{}
+			s.names[name] = ino
+			s.order = append(s.order, name)
+		}
+		if fl&oTRUNC != 0 {
+			ino.data, ino.durable = nil, 0
+		}
+		return tuple{in.fileValue(&fsHandle{name: name, inode: ino, write: fl&(oWRONLY|oRDWR) != 0, app: fl&oAPPEND != 0, inPlace: true}), iface{}}
+	}
 	I["os.Open"] = func(in *Interp, fr *frame, fn *ssa.Function, a []value) value {
 		name := in.mustStr(a[0], "os.Open")
 		in.fsOp("open " + name)
@@ -232,7 +261,24 @@ func registerFS() {
 			return tuple{in.i64(0), in.newErr("write: bad file")}
 		}
 		b := a[1].([]value)
-		h.inode.data = append(h.inode.data, b...)
+		if !h.inPlace || h.app {
+			h.inode.data = append(h.inode.data, b...)
+			h.pos = len(h.inode.data)
+			return tuple{in.i64(int64(len(b))), iface{}}
+		}
+		// write at the handle's position: overwrite what is there, extend at the end
+		ino := h.inode
+		if h.pos < ino.durable {
+			ino.durable = h.pos // the overwritten region is old or new after a crash
+		}
+		for _, x := range b {
+			if h.pos < len(ino.data) {
+				ino.data[h.pos] = x
+			} else {
+				ino.data = append(ino.data, x)
+			}
+			h.pos++
+		}
 		return tuple{in.i64(int64(len(b))), iface{}}
 	}
 	I["(*os.File).Sync"] = func(in *Interp, fr *frame, fn *ssa.Function, a []value) value {
